@@ -56,6 +56,13 @@ def gen(c):
             for j in range(2 if (th or not slow) else 1):
                 m2 = pattern(rng, ml); ad2 = pattern(rng, adl)
                 p.case(['aead.enc scheme=%s k=%s n=%s ad=%s m=%s fam=c' % (sc, hx(k), hx(n), hx(ad2), hx(m2))], cost=(2.0 if slow else 0.3))
+    # associated data longer than 255 rate blocks: a flip in its first, middle and last byte must still be rejected
+    for sc, klen, rate, fams in SCHEMES[:3]:
+        adl = 256 * rate + rng.choice([0, 5]); ml = rng.choice([0, 3])
+        k = pattern(rng, klen); n = pattern(rng, 16); ad = pattern(rng, adl, 'rand'); m = pattern(rng, ml, 'rand')
+        mu = ['id', 'a:0:1', 'a:%d:16' % (adl // 2), 'a:%d:128' % (adl - 1), 'a:%d:1' % (8 * rate), 'adext:00', 'adtrunc:%d' % (adl - 1), 'c:%d:1' % ml, 'k:0:1', 'n:15:1']
+        p.case(['aead.forge scheme=%s k=%s n=%s ad=%s m=%s fam=%s muts=%s tape=rand' % (sc, hx(k), hx(n), hx(ad), hx(m), fams, ';'.join(mu))], cost=16.0)
+        c.distinct([(sc, 'longad', x.split(':')[0]) for x in mu])
     # explicit decrypt events on arbitrary (not valid) inputs incl. every length below the tag size
     for sc, klen, rate, fams in SCHEMES:
         for L in list(range(0, 17)) + [rate + 16, 40]:
@@ -96,8 +103,10 @@ def run(c):
     c.assumptions += ['a modified (key, nonce, AD, ciphertext||tag) verifies with probability 2^-128: every forged input is required to be rejected',
                       'forged decryptions are judged by TLC from the recorded result (negative, plaintext all zero for one-shot forms, canaries intact) after TLC has recomputed the BASE ciphertext from the specification; decryptions of valid and of arbitrary inputs are recomputed in full',
                       'ISAP is not part of the symbolic forgery model (bit-wise re-keying terms are too deep for TLC); it is covered by trace validation only']
-    c.tv(p, 'rel', 'forge', max_cost=14.0)
+    c.tv(p, 'rel', 'forge', max_cost=20.0)
     if c.tier == 'thorough':
-        for fl in ('c32', 'dxor', 'ks3+ds3+ms3'):
-            c.tv(p, fl, 'forge', max_cost=14.0)
+        for fl in ('c32', 'dxor', 'ks3+ds3+ms3', 'ks3+ds2', 'c64+ks2+ds1+ms2'):
+            c.tv(p, fl, 'forge', max_cost=20.0)
+    else:
+        c.tv_sample(p, 'forge', ('c32', 'c64', 'dxor', 'ks3+ds2', 'c64+ks2+ds1+ms2'), k=30, max_cost=12.0, pred=lambda cs: cs[1] < 3)
     c.cov['rule'] = 'per scheme and length shape: flip in every ct/tag byte, tag bits, every AD byte, nonce bits, key bits, every truncation, extensions, x every entry-point family; distinct = (scheme, |AD|, |M|, mutation class)'
